@@ -38,7 +38,7 @@ def apply_edits(root, edits):
 def run_case(case, worker_dir, tier, run_tests):
     t0 = time.time()
     scratch = tempfile.mkdtemp(prefix="zsa-case-", dir=worker_dir)
-    res = {"name": case["name"], "prop": case["prop"], "kind": case["kind"]}
+    res = {"name": case["name"], "prop": case["prop"], "kind": case["kind"], "wall_s": 0.0}
     try:
         subprocess.check_call(["rsync", "-a", "--exclude", "target", "--exclude", ".git", facts.REPO + "/", scratch + "/"])
         apply_edits(scratch, case["edits"])
